@@ -112,7 +112,10 @@ def gen_case(rng, tie_stream=False):
     if rng.random() < 0.2:
         thrs.append(thr)
     ppq, mpq = rng.choice(PAIRS) if rng.random() < 0.8 else (rng.randint(1, 2000), rng.randint(1000, 2 * 10 ** 6))
-    return dict(notes=notes, ctrls=ctrls, thr=thr, thrs=thrs, ppq=ppq, mpq=mpq, scale=rng.choice([16, 16, 16, 16, 1, 4, 1024]))
+    scale = rng.choice([16, 16, 16, 16, 1, 4, 1024])
+    if scale == 1:
+        mpq = max(mpq, 20000)  # whole-second grid: keep the int32 tick columns of note_array below 2^31
+    return dict(notes=notes, ctrls=ctrls, thr=thr, thrs=thrs, ppq=ppq, mpq=mpq, scale=scale)
 
 
 def has_order_tie(case):
@@ -154,46 +157,40 @@ def tie_matters(case, thr):
 # the property's words, computed directly (exact rationals)
 
 
-def spec_sound_off(case, thr, i, stable_ties=False):
+def spec_end(case, thr, i):
+    """-> (sounding end, stated?).  stated = False: the pedal is down at the release and there is
+    no later moment with a pedal value <= threshold and no later strike of the pitch -- the
+    statement does not say when such a note ends (only: not before its release); the value
+    returned then is the implementation's convention, one second after the last pedal event /
+    release, used for planning and reporting only, never demanded."""
     sc = case["scale"]
     ns, cs = case["notes"], case["ctrls"]
     off = ns[i]["off"]
     ped = [(c["t"], c["value"]) for c in cs if c["number"] == 64]
     if not ped:
-        return F(off, sc)
+        return F(off, sc), True
     before = [(t, k, v) for k, (t, v) in enumerate(ped) if t < off]
     if not before:
-        return F(off, sc)
+        return F(off, sc), True
     latest = max(before, key=lambda x: (x[0], x[1]))  # ties (tie stream only): last listed
     if not latest[2] > thr:
-        return F(off, sc)
-    closing = max(max(t for t, _ in ped), max(x["off"] for x in ns)) + sc  # one second later
-    cands = [closing]
-    cands += [t for t, v in ped if t >= off and v <= thr]
+        return F(off, sc), True
+    cands = [t for t, v in ped if t >= off and v <= thr]
     cands += [b["on"] for j, b in enumerate(ns) if j != i and b["midi_pitch"] == ns[i]["midi_pitch"] and b["on"] >= off]
-    return F(min(cands), sc)
+    if not cands:
+        return F(max(max(t for t, _ in ped), max(x["off"] for x in ns)) + sc, sc), False
+    return F(min(cands), sc), True
 
 
-def rhe(fr):
-    f = math.floor(fr)
-    r = fr - f
-    if r < F(1, 2):
-        return f
-    if r > F(1, 2):
-        return f + 1
-    return f if f % 2 == 0 else f + 1
+def spec_sound_off(case, thr, i):
+    return spec_end(case, thr, i)[0]
 
 
-def tick_exact(ppq, mpq, t):
-    """(tick, comparable?) -- near ties of the float evaluation are not comparable (DESIGN 2.4)."""
-    exact = F(10 ** 6) * ppq * F(t) / mpq
-    frac = exact - math.floor(exact)
-    if frac != F(1, 2) and abs(frac - F(1, 2)) < F(1, 2 ** 20):
-        return rhe(exact), False
-    fl = 1e6 * ppq * float(t) / mpq
-    if F(fl) != exact and abs(F(fl) - exact) > abs(frac - F(1, 2)) / 2:
-        return rhe(exact), False
-    return rhe(exact), True
+TICK_EPS = F(1, 1000)  # allowance for the float evaluation of 1e6 * ppq * t / mpq
+
+
+def ticks_of(ppq, mpq, t):
+    return F(10 ** 6) * ppq * F(t) / mpq
 
 
 # ----------------------------------------------------------------------------
@@ -274,8 +271,8 @@ def oracle(case, res, tie):
             elif no_pedal and so != off:
                 bad.append("threshold %d note %d: no pedal events, sound_off %s differs from the release %s" % (thr, i, float(so), float(off)))
             elif not open_tie:
-                exp = spec_sound_off(case, thr, i)
-                if so != exp:
+                exp, stated = spec_end(case, thr, i)
+                if stated and so != exp:
                     bad.append("threshold %d note %d (pitch %d, on %s, off %s): sound_off %s, the pedal dictates %s"
                                % (thr, i, ns[i]["midi_pitch"], ns[i]["on"] / sc, float(off), float(so), float(exp)))
             if thr >= 127 and so != off:
@@ -307,13 +304,13 @@ def oracle(case, res, tie):
                     bad.append("note_array row %d: onset_sec %s, note_on %s" % (i, float(r["onset_sec"]), float(on)))
                 if abs(r["duration_sec"] - (so - on)) > F32_TOL * max(1, abs(so)):
                     bad.append("note_array row %d: duration_sec %s, sounding end - onset = %s" % (i, float(r["duration_sec"]), float(so - on)))
-                tk, cmp_on = tick_exact(ppq, mpq, on)
-                if cmp_on and r["onset_tick"] != tk:
-                    bad.append("note_array row %d: onset_tick %d, onset %s s is tick %d at ppq %d mpq %d" % (i, r["onset_tick"], float(on), tk, ppq, mpq))
-                if so == F(ns[i]["off"], sc):
-                    tk2, cmp_off = tick_exact(ppq, mpq, so)
-                    if cmp_on and cmp_off and r["duration_tick"] != tk2 - tk:
-                        bad.append("note_array row %d: duration_tick %d, expected %d (no pedal extends the note)" % (i, r["duration_tick"], tk2 - tk))
+                # onsets in seconds and ticks agree: the tick column is the nearest tick
+                if abs(r["onset_tick"] - ticks_of(ppq, mpq, on)) > F(1, 2) + TICK_EPS:
+                    bad.append("note_array row %d: onset_tick %d, onset %s s is %s ticks at ppq %d mpq %d" % (i, r["onset_tick"], float(on), float(ticks_of(ppq, mpq, on)), ppq, mpq))
+                # durations in ticks agree with the seconds when no pedal extends the note (two roundings: within one tick)
+                if so == F(ns[i]["off"], sc) and abs(r["duration_tick"] - ticks_of(ppq, mpq, so - on)) > 1 + TICK_EPS:
+                    bad.append("note_array row %d: duration_tick %d, the duration %s s is %s ticks (no pedal extends the note)"
+                               % (i, r["duration_tick"], float(so - on), float(ticks_of(ppq, mpq, so - on))))
     rb = res["rebuilt"]
     if rb is not None:
         if len(rb) != len(ns):
@@ -358,11 +355,7 @@ def term_note_array(case, res):
     for i, r in enumerate(res["na"]):
         on = F(case["notes"][i]["on"], sc)
         off = F(case["notes"][i]["off"], sc)
-        _, c1 = tick_exact(ppq, mpq, on)
-        _, c2 = tick_exact(ppq, mpq, off)
-        if not c1:
-            return None
-        dt = r["duration_tick"] if (c2 and res["obs0"][i] == off) else None
+        dt = r["duration_tick"] if res["obs0"][i] == off else None
         rows.append(ctuple([cz(r["pitch"]), cz(r["velocity"]), cz(r["onset_tick"]), copt(dt, cz)]))
     return ctuple([cz(ppq), cz(mpq), cz(case["thr"]), clist([c_note(x, sc) for x in case["notes"]]),
                    clist([c_ctrl(c, sc) for c in case["ctrls"]]), clist(rows)])
@@ -454,7 +447,7 @@ def initial_state(case):
                 ctrls=[dict(c) for c in case["ctrls"]], thr=case["thr"], ppq=case["ppq"], mpq=case["mpq"])
 
 
-def abs_apply(st, step, sc):
+def abs_apply(st, step, sc, observed=None):
     """The harness's bookkeeping: the notes / controls / threshold the part must have after the
     step.  None: a note-array round trip over a state with sort-order ties (sounding ends open)."""
     st = dict(notes=[dict(x) for x in st["notes"]], ctrls=[dict(c) for c in st["ctrls"]], thr=st["thr"], ppq=st["ppq"], mpq=st["mpq"])
@@ -500,9 +493,17 @@ def abs_apply(st, step, sc):
         v = state_view(st, sc)
         if has_order_tie(v):
             return None
-        ends = [spec_sound_off(v, st["thr"], i) * sc for i in range(len(st["notes"]))]
+        # the new releases are the sounding ends; where the statement leaves the end open the
+        # implementation's own value (observed, already judged >= release) is taken over
+        ends = []
+        for i in range(len(st["notes"])):
+            e, stated = spec_end(v, st["thr"], i)
+            if not stated and observed is not None and i < len(observed):
+                e = observed[i]
+            ends.append(e * sc)
         for x, e in zip(st["notes"], ends):
-            assert e.denominator == 1
+            if e.denominator != 1:
+                return None  # an open end the implementation put off the time grid: the history ends here
             x["off"] = int(e)
         st["ctrls"] = []
         st["thr"] = 64
@@ -628,8 +629,8 @@ def oracle_state(st, obs, sc, label):
         elif thr >= 127 and so != off:
             bad.append("%s note %d: threshold %d, sound_off %s differs from the release %s" % (label, i, thr, float(so), float(off)))
         elif not open_tie:
-            exp = spec_sound_off(v, thr, i)
-            if so != exp:
+            exp, stated = spec_end(v, thr, i)
+            if stated and so != exp:
                 bad.append("%s note %d (pitch %d, on %s, off %s, threshold %d): sound_off %s, the pedal dictates %s"
                            % (label, i, ns[i]["midi_pitch"], ns[i]["on"] / sc, float(off), thr, float(so), float(exp)))
     return bad, tie
@@ -663,7 +664,7 @@ def judge_hist(case):
     if bad:
         return bad, trace, any_tie
     for k, step in enumerate(case["steps"]):
-        st2 = abs_apply(st, step, sc)
+        st2 = abs_apply(st, step, sc, observed=obs["so"])
         if st2 is None:
             break  # round trip over a tied state: the history ends here
         label = "after step %d (%s%s)" % (k + 1, step["op"], ":" + step["how"] if "how" in step else "")
@@ -739,14 +740,34 @@ def c_step(step, st_after, sc):
     return "(RoundTrip 480 500000)"
 
 
-def term_steps(case, trace):
+def terms_steps(case, trace):
+    """Coq terms for one history.  Normally one; a note-array round trip over a state in which the
+    statement leaves a sounding end open starts a new term from the rebuilt part (the model's
+    convention for such an end is not demanded of the implementation, so the model is not asked to
+    predict the releases of the rebuilt notes)."""
     sc = case["scale"]
     steps = case["steps"][:len(trace) - 1]
-    so0 = [F(x.get("so", x["off"]), sc) for x in case["notes"]]
-    return ctuple([cz(case["thr"]), clist([c_note(x, sc) for x in case["notes"]]), c_qlist(so0),
-                   clist([c_ctrl(c, sc) for c in case["ctrls"]]),
-                   clist([c_step(s, trace[k + 1][0], sc) for k, s in enumerate(steps)]),
-                   clist([ctuple([c_qlist(o["off"]), c_qlist(o["so"])]) for _, o in trace])])
+
+    def flush(notes, so0, ctrls, thr, csteps, cobs):
+        return ctuple([cz(thr), clist([c_note(x, sc) for x in notes]), c_qlist(so0), clist([c_ctrl(c, sc) for c in ctrls]),
+                       clist(csteps), clist([ctuple([c_qlist(o["off"]), c_qlist(o["so"])]) for o in cobs])])
+
+    out = []
+    start = (case["notes"], [F(x.get("so", x["off"]), sc) for x in case["notes"]], case["ctrls"], case["thr"])
+    csteps, cobs = [], [trace[0][1]]
+    for k, s_ in enumerate(steps):
+        before, after = trace[k][0], trace[k + 1][0]
+        if s_["op"] == "roundtrip":
+            v = state_view(before, sc)
+            if any(not spec_end(v, before["thr"], i)[1] for i in range(len(before["notes"]))):
+                out.append(flush(*start, csteps, cobs))
+                start = (after["notes"], [F(x["off"], sc) for x in after["notes"]], after["ctrls"], after["thr"])
+                csteps, cobs = [], [trace[k + 1][1]]
+                continue
+        csteps.append(c_step(s_, after, sc))
+        cobs.append(trace[k + 1][1])
+    out.append(flush(*start, csteps, cobs))
+    return out
 
 
 def hist_corpus_cases():
@@ -793,21 +814,36 @@ def hist_corpus_cases():
 
 def gen_perf_case(rng):
     nparts = rng.choice([1, 2, 2, 3, 4])
+    # 35%: the parts' NOTE tracks are pairwise disjoint, but a control or a program change of one
+    # part sits on a track number that another part uses (uniqueness must look at every event)
+    disjoint = nparts > 1 and rng.random() < 0.35
+    if disjoint:
+        numbers = rng.sample(range(0, 12), 2 * nparts)
+        pools = [numbers[2 * k: 2 * k + rng.choice([1, 2])] for k in range(nparts)]
     parts = []
     for k in range(nparts):
-        tr_pool = rng.choice([[0], [0, 1], [0, 0, 2], [1, 5], [0, 1, 2, 3], [7], [-1, 0]])
+        tr_pool = pools[k] if disjoint else rng.choice([[0], [0, 1], [0, 0, 2], [1, 5], [0, 1, 2, 3], [7], [-1, 0]])
         notes = [dict(midi_pitch=rng.randint(20, 100), on=i * 4, off=i * 4 + rng.randint(0, 6), velocity=rng.randint(1, 127),
                       channel=rng.randint(0, 15), track=rng.choice(tr_pool)) for i in range(rng.randint(1, 5))]
-        if rng.random() < 0.3:
+        if rng.random() < 0.3 and not disjoint:
             for x in notes:
                 if rng.random() < 0.5:
                     x["track"] = None  # key absent: the code reads -1
+        foreign = [t for j in range(nparts) if j != k for t in pools[j]] if disjoint else [rng.randint(0, 9)]
         ctrls = [dict(number=rng.choice([64, 67, 1]), t=rng.randint(0, 30), value=rng.randint(0, 127),
-                      track=rng.choice(tr_pool + [rng.randint(0, 9)]), channel=rng.randint(0, 15)) for i in range(rng.randint(0, 4))]
-        progs = [dict(program=rng.randint(0, 127), t=rng.randint(0, 30), track=rng.choice(tr_pool + [rng.randint(0, 9)]),
+                      track=rng.choice(tr_pool + foreign), channel=rng.randint(0, 15)) for i in range(rng.randint(0, 4))]
+        progs = [dict(program=rng.randint(0, 127), t=rng.randint(0, 30), track=rng.choice(tr_pool + foreign),
                       channel=rng.randint(0, 15)) for i in range(rng.randint(0, 2))]
         parts.append(dict(notes=notes, ctrls=ctrls, progs=progs))
-    return dict(parts=parts, scale=16, again=rng.choice([None, None, "sanitize", "rewrap", "single"]))
+    if disjoint:
+        # make sure at least one control or program change is on another part's track
+        k = rng.randrange(nparts)
+        t = rng.choice(sorted({x["track"] for j in range(nparts) if j != k for x in parts[j]["notes"]}))  # a track other notes really use
+        if rng.random() < 0.5:
+            parts[k]["ctrls"].append(dict(number=rng.choice([64, 7]), t=rng.randint(0, 30), value=rng.randint(0, 127), track=t, channel=0))
+        else:
+            parts[k]["progs"].append(dict(program=rng.randint(0, 127), t=rng.randint(0, 30), track=t, channel=0))
+    return dict(parts=parts, scale=16, again=rng.choice([None, None, "sanitize", "rewrap", "single"]), disjoint_note_tracks=disjoint)
 
 
 def run_perf(case):
@@ -848,19 +884,20 @@ def run_perf(case):
     return out, perf.num_tracks
 
 
-def oracle_tracks(pairs, num_tracks):
+def oracle_tracks(pairs, num_tracks=None):
+    """What the statement says and no more: after sanitising no track number is used by two
+    different parts, and two events (notes, controls, program changes) of one part share a number
+    exactly when they shared one before.  Which numbers are used is not prescribed."""
     bad = []
-    fwd, back = {}, {}
+    fwd, owner, back = {}, {}, {}
     for old, new in pairs:
         if fwd.setdefault(old, new) != new:
-            bad.append("(part, track) %s renumbered both to %d and %d" % (old, fwd[old], new))
-        if back.setdefault(new, old) != old:
-            bad.append("new track %d holds both %s and %s (parts/tracks mixed)" % (new, back[new], old))
-    n = len(fwd)
-    if sorted(back) != list(range(n)) and not bad:
-        bad.append("new track numbers %s are not 0..%d" % (sorted(back), n - 1))
-    if num_tracks != n and not bad:
-        bad.append("num_tracks = %d, distinct (part, track) pairs = %d" % (num_tracks, n))
+            bad.append("events of part %d that shared track %s are now on tracks %d and %d (split)" % (old[0], old[1], fwd[old], new))
+    for old, new in sorted(fwd.items()):
+        if owner.setdefault(new, old[0]) != old[0]:
+            bad.append("track number %d is used by part %d and by part %d after sanitising (not unique across parts)" % (new, owner[new], old[0]))
+        if back.setdefault((old[0], new), old[1]) != old[1]:
+            bad.append("part %d: tracks %s and %s both became track %d (merged)" % (old[0], back[(old[0], new)], old[1], new))
     return bad
 
 
@@ -928,7 +965,9 @@ def run(ctx):
                 "all pedal events removed (by assignment and in place) then threshold assigned 40%, note_off or note_on edited / note added / deleted then "
                 "threshold assigned 20%, part rebuilt from the part's note dicts / note objects / copies with same, pedal-free or new controls 18%, "
                 "from_note_array(note_array()) 10%; 45% of the assigned thresholds equal the current one; judged after construction and after every step. "
-                "Time grid 1/16 s (4 in 7), 1, 1/4, 1/1024 s. "
+                "Time grid 1/16 s (4 in 7), 1, 1/4, 1/1024 s. Performances: 1-4 parts, notes / controls / program changes on shared, missing and further "
+                "track numbers, 35% of the multi-part ones with pairwise disjoint note tracks and a control or program change on a track another part's notes "
+                "use; 40% sanitised a second time. "
                 "Non-trivial = a case in which at least one note's sounding end differs from its release under at least one of the thresholds "
                 "(pedal extension, possibly clipped by a re-strike), a history with such a state or with a carried sound_off different from the release, "
                 "a performance with more than one (part, track) pair; counted distinct by the full case.")
@@ -946,9 +985,13 @@ def run(ctx):
         "main stream: pedal events at pairwise distinct times and no zero-length note sharing its onset with another note of its pitch "
         "(numpy's default argsort leaves the order of equal keys unspecified); inputs with such ties go to a separate stream on which only "
         "totality, sound_off >= note_off and identity at threshold >= 127 are required, agreement with the stable-order model is counted",
-        "when the pedal is still down after the last pedal event the implementation ends the note at max(last pedal time, last release) + 1 s; "
-        "the specification treats that closing moment as a pedal-up event",
-        "tick columns: near-ties of 1e6*ppq*t/mpq (within 2^-20 of .5, not on it) are counted and not compared",
+        "when the pedal is down at a release and no later pedal value is at or below the threshold and the pitch is not struck again, the statement does "
+        "not say when the note ends: only sound_off >= note_off is required there (the implementation's and the model's convention is "
+        "max(last pedal time, last release) + 1 s; Model/C14_Spec.v states it as the closing moment, the correspondence does not demand it)",
+        "tick columns: onset_tick within 1/2 + 1/1000 of 1e6*ppq*onset/mpq, duration_tick within 1 + 1/1000 of 1e6*ppq*duration/mpq when no pedal extends "
+        "the note (1/1000 tick allowed for the float evaluation); equality with the model's own formulas is counted only",
+        "track renumbering: required is that no new number is used by two parts and that events of one part share a number iff they did before "
+        "(notes, controls, programs); which numbers are used and num_tracks are not judged",
         "float32 columns of note_array and the rebuilt part are compared with relative tolerance 2^-20",
     ]
     ok, why = ctx.coq_props(expect_min=EXPECT_MIN)
@@ -1016,18 +1059,16 @@ def run(ctx):
         else:
             hist_terms.append(term_history(case, res))
             hist_cases.append((case, res))
-            t = term_note_array(case, res)
-            if t is None:
-                ctx.count("note_array:near_tie_skipped")
-            else:
-                na_terms.append(t)
-                na_cases.append((case, res))
+            na_terms.append(term_note_array(case, res))
+            na_cases.append((case, res))
 
     imports = "From PV Require Import Lib.Base Model.C14."
+    ctx.log("main stream judged in Python (%d cases)" % len(cases))
     if ok:
         failing = ctx.coq_failing("hist", imports, "", hist_terms, "check_history", shard=250)
         ctx.obligation("correspondence: Model.C14.construct / set_threshold = sound_off column of PerformedPart after construction and after "
-                       "each of %d threshold assignments, %d cases" % (sum(len(c["thrs"]) for c, _ in hist_cases), len(hist_terms)),
+                       "each of %d threshold assignments, %d cases (equal, or >= release where the model's value is the closing moment the statement does not fix)"
+                       % (sum(len(c["thrs"]) for c, _ in hist_cases), len(hist_terms)),
                        not failing, failing[:5])
         for i in failing[:3]:
             case, res = hist_cases[i]
@@ -1035,18 +1076,24 @@ def run(ctx):
                           {"kind": "pedal-model", "case": case, "impl_sound_off": [float(x) for x in res["obs0"]],
                            "impl_history": [[float(x) for x in h] for h in res["hist"]]})
         failing = ctx.coq_failing("na", imports, "", na_terms, "check_note_array", shard=250)
-        ctx.obligation("correspondence: Model.C14.note_array = pitch/velocity/onset_tick (and duration_tick where no pedal extends the note) of "
-                       "PerformedPart.note_array(), %d cases" % len(na_terms), not failing, failing[:5])
+        ctx.obligation("correspondence: rows of PerformedPart.note_array() have the note's pitch and velocity, the onset tick nearest to the onset in "
+                       "seconds under ppq/mpq and, where no pedal extends the note, a tick duration within one tick of the duration in seconds "
+                       "(Model.C14.check_note_array; the bounds of onset_tick_agrees / duration_tick_agrees), %d cases" % len(na_terms), not failing, failing[:5])
         for i in failing[:3]:
             case, res = na_cases[i]
             ctx.violation("model and implementation disagree on note_array()", {"kind": "note-array-model", "case": case,
                                                                                  "impl_rows": [{k: (float(v) if isinstance(v, F) else v) for k, v in r.items()} for r in res["na"]]})
+        # agreement with the model's own tick formulas (round half even; tick(release) - tick(onset)) is counted, not required
+        xfail = ctx.coq_failing("na_exact", imports, "", na_terms, "check_note_array_exact", shard=250)
+        ctx.count("note_array:rows_equal_model_formulas", len(na_terms) - len(xfail))
+        ctx.count("note_array:rows_differ_from_model_formulas(reported only)", len(xfail))
         # tie stream: agreement with the stable-order model is counted, not required
         tfail = ctx.coq_failing("tie", imports, "", tie_terms, "check_history", shard=250) if tie_terms else []
         ctx.count("tie_stream:agrees_with_stable_order_model", len(tie_terms) - len(tfail))
         ctx.count("tie_stream:differs_from_stable_order_model(reported only)", len(tfail))
 
     # ---- operation histories
+    ctx.log("main stream compared in Coq")
     n_hist = 700 if quick else 15000
     n_hist_tie = 100 if quick else 2000
     hcases = [(c, "corpus") for c in hist_corpus_cases()]
@@ -1054,6 +1101,7 @@ def run(ctx):
     hcases += [(gen_hist_case(rng, tie_stream=True), "tie?") for _ in range(n_hist_tie)]
     st_terms, st_cases, stt_terms = [], [], []
     n_hviol = 0
+    n_hist_steps = 0
     for case, kind in hcases:
         bad, trace, tie = judge_hist(case)
         ctx.evaluations += max(1, len(trace))
@@ -1073,6 +1121,8 @@ def run(ctx):
             continue
         sc = case["scale"]
         steps = case["steps"][:len(trace) - 1]
+        if not tie:
+            n_hist_steps += len(steps)
         for s_ in steps:
             ctx.count("hist_step:%s%s" % (s_["op"], ":" + s_["how"] if "how" in s_ else ""))
         ext = [any(so != off for so, off in zip(o["so"], o["off"])) for _, o in trace]
@@ -1090,17 +1140,21 @@ def run(ctx):
             ctx.nontrivial("hist" + json.dumps(case, sort_keys=True))
         if len(ctx.samples) < 5 and any(ext[k] and noped[k + 1] for k in range(len(trace) - 1)) and len(steps) <= 3:
             ctx.sample({"history_case": case, "sound_off_after_each_step": [[float(x) for x in o["so"]] for _, o in trace]})
-        t = term_steps(case, trace)
-        if tie:
-            stt_terms.append(t)
-        else:
-            st_terms.append(t)
-            st_cases.append((case, trace))
+        for t in terms_steps(case, trace):
+            if tie:
+                stt_terms.append(t)
+            else:
+                st_terms.append(t)
+                st_cases.append((case, trace))
+        if any(not spec_end(state_view(st, sc), st["thr"], i)[1] for st, _ in trace for i in range(len(st["notes"]))):
+            ctx.count("histories:some_sounding_end_left_open_by_the_statement")
+    ctx.log("histories judged in Python (%d)" % len(hcases))
     if ok:
         failing = ctx.coq_failing("steps", imports, "", st_terms, "check_steps", shard=200)
         ctx.obligation("correspondence: Model.C14.new_part_carrying / apply_step (SetThr, SetCtrls, SetNotes, Rebuild, RoundTrip) = note_off and sound_off "
-                       "columns of the PerformedPart after construction from notes carrying sound_off values and after each of %d steps, %d histories"
-                       % (sum(len(tr) - 1 for _, tr in st_cases), len(st_terms)), not failing, failing[:5])
+                       "columns of the PerformedPart after construction from notes carrying sound_off values and after each of %d steps, %d histories "
+                       "(equal, or >= release where the model's value is the closing moment the statement does not fix)"
+                       % (n_hist_steps, len(st_terms)), not failing, failing[:5])
         for i in failing[:3]:
             case, trace = st_cases[i]
             ctx.violation("model and implementation disagree on the sound_off column after a history of operations "
@@ -1111,6 +1165,7 @@ def run(ctx):
         ctx.count("tie_histories:differ_from_stable_order_model(reported only)", len(tfail))
 
     # ---- track renumbering
+    ctx.log("histories compared in Coq")
     tr_terms, tr_cases = [], []
     for i in range(n_perf):
         pc = gen_perf_case(rng)
@@ -1120,7 +1175,7 @@ def run(ctx):
             ctx.violation("Performance([...]) raised: " + r, {"kind": "tracks", "case": pc})
             continue
         pairs, nt = r
-        bad = oracle_tracks(pairs, nt)
+        bad = oracle_tracks(pairs)
         if bad:
             if n_viol < 8:
                 ctx.violation("track renumbering: " + "; ".join(bad[:3]), {"kind": "tracks", "case": pc, "pairs": pairs})
@@ -1131,12 +1186,14 @@ def run(ctx):
         ctx.count("perf:parts=%d" % len(pc["parts"]))
         if pc.get("again"):
             ctx.count("perf:again=%s" % pc["again"])
+        if pc.get("disjoint_note_tracks"):
+            ctx.count("perf:note_tracks_disjoint_but_control_or_program_on_another_parts_track")
         tr_terms.append(clist([ctuple([ctuple([cz(o[0]), cz(o[1])]), cz(nw)]) for o, nw in pairs]))
         tr_cases.append((pc, pairs))
     if ok:
         failing = ctx.coq_failing("tracks", imports, "", tr_terms, "check_tracks", shard=400)
-        ctx.obligation("correspondence: Model.C14.track_map induces the same partition of (part, track) pairs as Performance.sanitize_track_numbers "
-                       "and the new numbers are 0..n-1, %d performances" % len(tr_terms), not failing, failing[:5])
+        ctx.obligation("correspondence: Model.C14.track_map induces the same partition of the (part, track) pairs of notes, controls and programs as "
+                       "Performance.sanitize_track_numbers (same number iff same part and same old track), %d performances" % len(tr_terms), not failing, failing[:5])
         for i in failing[:3]:
             ctx.violation("model and implementation disagree on track renumbering", {"kind": "tracks-model", "case": tr_cases[i][0], "pairs": tr_cases[i][1]})
     if not ok and not ctx.violations:
